@@ -100,7 +100,7 @@ class FakeData:
         return self.arr
 
 
-def params_check(has_type, u_min, u_max, u_sp, u_dir, uniform, rows, mode):
+def params_check(has_type, u_min, u_max, u_sp, u_dir, uniform, rows, mode, zero=False):
     """Symbolic flags: index type given or not; index_min / index_max / spacing / direction supplied by the user or not;
     data uniform or not; high-compatibility mode.  Supplied values are left unchanged; the others are derived from the
     rows written."""
@@ -111,12 +111,13 @@ def params_check(has_type, u_min, u_max, u_sp, u_dir, uniform, rows, mode):
         fr = FrameItem('FR', FrameSet(), channels=(ch,), origin_reference=1)
         if has_type:
             fr.index_type.value = 'BOREHOLE-DEPTH'
+        UMIN, UMAX, USP = (0.0, 0.0, 0.0) if zero else (1000.5, 2000.5, 77.5)      # a supplied zero is a supplied value
         if u_min:
-            fr.index_min.value = 1000.5
+            fr.index_min.value = UMIN
         if u_max:
-            fr.index_max.value = 2000.5
+            fr.index_max.value = UMAX
         if u_sp:
-            fr.spacing.value = 77.5
+            fr.spacing.value = USP
         if u_dir:
             fr.direction.value = 'DECREASING'
     vals = [10, 12, 14, 16][:rows] if uniform else [10, 12, 19, 31][:rows]
@@ -134,17 +135,17 @@ def params_check(has_type, u_min, u_max, u_sp, u_dir, uniform, rows, mode):
     if mode and has_type and (not really_uniform or rows == 1):
         return 2
     if not has_type:
-        if fr.index_min.value != (1000.5 if u_min else 1) or fr.index_max.value != (2000.5 if u_max else rows):
+        if fr.index_min.value != (UMIN if u_min else 1) or fr.index_max.value != (UMAX if u_max else rows):
             return 3
-        if fr.spacing.value != (77.5 if u_sp else 1):
+        if fr.spacing.value != (USP if u_sp else 1):
             return 4
         if (fr.direction.value is None) != (not u_dir):
             return 5
         return 0
-    if fr.index_min.value != (1000.5 if u_min else vals[0]) or fr.index_max.value != (2000.5 if u_max else vals[rows - 1]):
+    if fr.index_min.value != (UMIN if u_min else vals[0]) or fr.index_max.value != (UMAX if u_max else vals[rows - 1]):
         return 6
     if u_sp:
-        if fr.spacing.value != 77.5:
+        if fr.spacing.value != USP:
             return 7
     elif really_uniform and rows >= 2:
         if fr.spacing.value != 2:
@@ -163,20 +164,22 @@ def params_check(has_type, u_min, u_max, u_sp, u_dir, uniform, rows, mode):
     return 0
 
 
-def ob_params(has_type: bool, u_min: bool, u_max: bool, u_sp: bool, u_dir: bool, uniform: bool, rows: int, mode: bool) -> int:
+def ob_params(has_type: bool, u_min: bool, u_max: bool, u_sp: bool, u_dir: bool, uniform: bool, rows: int, mode: bool,
+              zero: bool) -> int:
     """
     pre: 1 <= rows <= 4
     post: _ == 0
     """
-    return params_check(has_type, u_min, u_max, u_sp, u_dir, uniform, rows, mode)
+    return params_check(has_type, u_min, u_max, u_sp, u_dir, uniform, rows, mode, zero)
 
 
-def reach_params(has_type: bool, u_min: bool, u_max: bool, u_sp: bool, u_dir: bool, uniform: bool, rows: int, mode: bool) -> int:
+def reach_params(has_type: bool, u_min: bool, u_max: bool, u_sp: bool, u_dir: bool, uniform: bool, rows: int, mode: bool,
+                 zero: bool) -> int:
     """
     pre: 1 <= rows <= 4
     post: _ != 0
     """
-    return params_check(has_type, u_min, u_max, u_sp, u_dir, uniform, rows, mode)
+    return params_check(has_type, u_min, u_max, u_sp, u_dir, uniform, rows, mode, zero)
 
 
 def second_setup_check(has_type, rows1, rows2):
